@@ -126,8 +126,8 @@ fn main() {
                                     for it in items {
                                         writeln!(
                                             o,
-                                            "ITEM\t{}\t{}\t{}\t{}\t{}",
-                                            it.kind, it.name, it.vis, it.sig, it.body
+                                            "ITEM\t{}\t{}\t{}\t{}\t{}\t{}",
+                                            it.kind, it.name, it.vis, it.sig, it.body, it.owner
                                         )
                                         .unwrap();
                                     }
